@@ -97,6 +97,11 @@ func replaceLaws(re *regexp2.Regexp, gt *ref.GroupTable, s, repl string, startAt
 		}
 		return "", "", 0
 	}
+	if ref.ReplacementOverflows(repl) {
+		// not a replacement string of the $-grammar: a group number beyond 32 bits is rejected (as in .NET)
+		st("replacement-number-overflow")
+		return "", "", 0
+	}
 	if err != nil {
 		if mon.ResourceErr(err) {
 			return "", "replace-" + mon.ErrClass(err), 0
